@@ -36,6 +36,7 @@ cm_unit = KaniUnit(
         H("c07_short_state_is_err", "bounded", "state vector shorter than the model => Err, no panic", bound="2 features"),
     ])
 vm_unit = VerusUnit('c07_costmodel', 'c07_costmodel', rlimit=30)
-UNITS = [cost_unit, vm_unit]
+rate = VerusUnit("c07_rate", "c07_rate", rlimit=30)
+UNITS = [cost_unit, vm_unit, rate]
 EXPLANATION = "contracts on the cost floor / clip functions (all f64), the cost model and the edge traversal split"
 NOT_DECIDED = "CostModel::new beyond two features"
